@@ -572,7 +572,7 @@ def shrink(t, op):
 def report(ctx, ofail, mism):
     seen = set()
     for i, label, t, op, msg in ofail:
-        key = (op["kind"], msg.split(":")[0][:40])
+        key = (op["kind"], "".join(ch for ch in msg[:28] if not ch.isdigit()))
         if key in seen:
             continue
         seen.add(key)
